@@ -306,6 +306,16 @@ func (t *Dense) TensorMul(other Tensor, axesA, axesB []int) (retVal *Dense, err 
 	// we borrowClone because we don't want to touch the original Tensors
 	doT := t.Clone().(*Dense)
 	doOther := other.Clone().(*Dense)
+	if !doOther.DataOrder().HasSameOrder(doT.DataOrder()) {
+		// Reshape flattens a tensor in its own data order: the two operands have to be
+		// flattened alike for the contracted axes to meet
+		sameOrder := recycledDense(doOther.t, doOther.shape.Clone(), WithEngine(doOther.e), orderOf(doT.DataOrder()))
+		if _, err = copyDenseIter(sameOrder, doOther, nil, nil); err != nil {
+			return
+		}
+		ReturnTensor(doOther)
+		doOther = sameOrder
+	}
 	defer ReturnTensor(doT)
 	defer ReturnTensor(doOther)
 
